@@ -21,6 +21,7 @@ type Env struct {
 	depth  int
 	guard  string // guard under which side assumptions (map length axioms) are emitted
 	site    *ssa.BasicBlock // program point of the clause (name resolution)
+	prevEnv *Env  // environment of the loop header (inside 'update' clauses: prev(e))
 	pre     State // heap at loop entry (inside loop clauses)
 	loopOrd int   // ordinal of the loop whose header names are in scope (0: none)
 }
@@ -161,6 +162,12 @@ func (env *Env) eval(x Expr) Val {
 		}
 		return c.eval(n.X)
 	case *ECall:
+		if n.Fun == "prev" && len(n.Args) == 1 {
+			if env.prevEnv == nil {
+				fail("prev() is only meaningful in loop update clauses")
+			}
+			return env.prevEnv.eval(n.Args[0])
+		}
 		if n.Fun == "pre" && len(n.Args) == 1 {
 			c := *env
 			if env.pre != nil {
@@ -421,6 +428,30 @@ func (env *Env) expandPred(p *Pred, args []Val) Val {
 	if len(args) != len(p.Params) {
 		fail("pred %s expects %d arguments", p.Name, len(p.Params))
 	}
+	if p.Opaque && !env.e.revealed(p.Name) {
+		// opaque: an uninterpreted function of the arguments (slices contribute their row and length)
+		var sorts, ts []string
+		for i, a := range args {
+			if ty := env.e.W.ResolveType(p.Params[i].Type, env.pkg); ty != nil && a.SetElem == nil && a.Tup == nil && a.Loc == nil {
+				a.Ty = ty
+			}
+			if a.Ty != nil {
+				if st, ok := a.Ty.Underlying().(*types.Slice); ok {
+					h := env.e.heapIn(env.st, env.e.sorts().ArrHeap(st.Elem()))
+					sorts = append(sorts, "(Array Int "+env.e.sorts().SortOf(st.Elem())+")", "Int")
+					ts = append(ts, sx("select", h, sx("sref", a.T)), sx("slen", a.T))
+					continue
+				}
+				switch a.Ty.Underlying().(type) {
+				case *types.Pointer, *types.Map:
+					fail("opaque pred %s: pointer and map parameters are not supported", p.Name)
+				}
+			}
+			sorts = append(sorts, env.sortOf(a))
+			ts = append(ts, a.T)
+		}
+		return Val{T: env.e.W.UF("opq."+p.Name, sorts, "Bool", ts...), Ty: tBool}
+	}
 	c := env.child()
 	c.depth = env.depth + 1
 	c.lookup = nil
@@ -529,6 +560,11 @@ func (env *Env) callSpec(n *ECall) Val {
 			}
 		}
 		fail("no field %s", fn.V)
+	case "store":
+		a, i, v := arg(0), arg(1), arg(2)
+		r := a
+		r.T = sx("store", a.T, i.T, v.T)
+		return r
 	case "sref":
 		return Val{T: sx("sref", arg(0).T), Ty: tInt}
 	case "fresh":
